@@ -384,7 +384,27 @@ func rulePlaceholderTaint(c *Ctx, r *Report) {
 		r.bad(rule, fmt.Sprintf("%s/sink[%d]", fname(h.in.Parent()), i+1), c.at(h.in), desc, h.what)
 	}
 	// the substitution point: tainted terms enter the grammar only as a finished Term replacing the placeholder atom
-	if t0 := c.method("Parser", "term0Atom"); t0 != nil {
+	// (the function that takes an argument from the queue: a constant-index load from Parser.args; since fix F60
+	// a helper shared by term0Atom and arg)
+	var t0 *ssa.Function
+	for _, fn := range c.LibFuncs() {
+		if recvNamed(fn) != "Parser" || fn.Parent() != nil {
+			continue
+		}
+		eachInstr(fn, func(in ssa.Instruction) {
+			if ia, ok := in.(*ssa.IndexAddr); ok {
+				if _, ok := loadsField(ia.X, "Parser", "args"); ok {
+					if _, isConst := ia.Index.(*ssa.Const); isConst && t0 == nil {
+						t0 = fn
+					}
+				}
+			}
+		})
+	}
+	if t0 == nil {
+		r.undecided(rule, "anchor:take-arg", "-", "locate the place where the parser takes an argument from its queue", "not found")
+	}
+	if t0 != nil {
 		// the queue holds finished terms: its element type is the Term interface
 		good := false
 		if pt := c.engType("Parser"); pt != nil {
@@ -1059,6 +1079,16 @@ var _ = strings.Join
 // R-SUBST-LAST (added after seed C15): the term spliced in for a placeholder is only handed on (returned);
 // no syntactic check of the parser looks at it.
 
+// takesTerm: fn has a parameter of type Term (it wraps an already parsed term).
+func takesTerm(fn *ssa.Function, termT *types.Named) bool {
+	for _, p := range fn.Params[1:] {
+		if termT != nil && types.Identical(p.Type(), termT) {
+			return true
+		}
+	}
+	return false
+}
+
 func ruleSubstLast(c *Ctx, r *Report) {
 	const rule = "R-SUBST-LAST"
 	n := 0
@@ -1107,7 +1137,31 @@ func ruleSubstLast(c *Ctx, r *Report) {
 						switch x := u.(type) {
 						case *ssa.Phi:
 							follow(x)
-						case *ssa.Return, *ssa.DebugRef:
+						case *ssa.DebugRef:
+						case *ssa.Return:
+							// (since fix F60) the substitution may sit in a helper that is GIVEN the parsed term and hands back
+							// either it or the argument: the grammar's checks then live in the helper's callers, and the value
+							// is followed into them - one level, to their returns
+							home := x.Parent()
+							if home != fn || !takesTerm(home, termT) {
+								continue
+							}
+							for _, cs := range c.callSitesOf(home) {
+								cv, ok := cs.(*ssa.Call)
+								if !ok {
+									bad = "returned to a deferred or spawned call at " + c.at(cs)
+									continue
+								}
+								if home.Signature.Results().Len() == 1 {
+									follow(cv)
+									continue
+								}
+								for _, r2 := range *cv.Referrers() {
+									if ex, ok := r2.(*ssa.Extract); ok && termT != nil && types.Identical(ex.Type(), termT) {
+										follow(ex)
+									}
+								}
+							}
 						case *ssa.Store:
 							// assignment to the local result variable
 							if cell := c.varCell(x.Addr); cell != nil {
@@ -1812,6 +1866,30 @@ func rulePlaceholderUnquoted(c *Ctx, r *Report) {
 					if y, _, kk, ok := cmpConst(x); ok && kk == quotedV && isEngNamed(y.Type(), "tokenKind") {
 						good = true
 					}
+					// the substitution sits in a helper that is told whether the token was quoted: every caller computes
+					// that argument from the token kind
+					if pr, ok := x.(*ssa.Parameter); ok && depth < 3 && pr.Parent() == fn {
+						if idx := paramIndex(fn, pr); idx >= 0 {
+							sites := c.callSitesOf(fn)
+							all := len(sites) > 0 && !c.usedAsValue(fn)
+							for _, cs := range sites {
+								if idx >= len(cs.Common().Args) {
+									all = false
+									continue
+								}
+								saved := good
+								good = false
+								look(cs.Common().Args[idx], depth+1)
+								if !good {
+									all = false
+								}
+								good = saved
+							}
+							if all {
+								good = true
+							}
+						}
+					}
 					// a flag set in the arms of a switch depends on the switch's conditions through control, not data
 					if phi, ok := x.(*ssa.Phi); ok && depth < 3 {
 						for _, cond := range controlConds(phi) {
@@ -1916,4 +1994,201 @@ func ruleErrReports(c *Ctx, r *Report) {
 		r.undecided(rule, fname(fn)+"/returns", c.Pos(fn.Pos()), desc, "no return found")
 	}
 	r.analysed(rule, fname(fn))
+}
+
+// ---------------------------------------------------------------------------
+// R-CLOSE-JOINS (C12, C14; added with fix F59): "Err reports the terminating error" - one error, not nil now and
+// the error a moment later. The search goroutine records its error on its way out, after Close has woken it; the
+// only synchronisation between that write and a later Err() is the goroutine's close of the answer channel. After
+// closing the request channel, Solutions.Close therefore receives from the answer channel until it is closed, on
+// every path to its successful return (except where that channel is known to be nil: a Solutions built by hand).
+func ruleCloseJoins(c *Ctx, r *Report) {
+	const rule = "R-CLOSE-JOINS"
+	desc := "Close returns only after the search goroutine has closed the answer channel"
+	fn := c.rootMethod("Solutions", "Close")
+	if fn == nil || len(fn.Params) == 0 {
+		r.undecided(rule, "anchor:Solutions.Close", "-", desc, "not found")
+		return
+	}
+	recv := ssa.Value(fn.Params[0])
+	// the two channel fields, told apart by direction of use in this function: close(x) vs <-x
+	loadOfField := func(v ssa.Value) *ssa.FieldAddr {
+		u, ok := v.(*ssa.UnOp)
+		if !ok || u.Op != token.MUL {
+			return nil
+		}
+		fa, ok := u.X.(*ssa.FieldAddr)
+		if !ok || fa.X != recv {
+			return nil
+		}
+		if _, isChan := fa.Type().(*types.Pointer).Elem().Underlying().(*types.Chan); !isChan {
+			return nil
+		}
+		return fa
+	}
+	var closeCall ssa.Instruction
+	recvBlocks := map[*ssa.BasicBlock]bool{}
+	recvField := -1
+	eachInstr(fn, func(in ssa.Instruction) {
+		switch x := in.(type) {
+		case *ssa.Call:
+			if b, ok := x.Call.Value.(*ssa.Builtin); ok && b.Name() == "close" && len(x.Call.Args) == 1 && loadOfField(x.Call.Args[0]) != nil {
+				closeCall = in
+			}
+		case *ssa.UnOp:
+			if x.Op == token.ARROW {
+				if fa := loadOfField(x.X); fa != nil {
+					recvBlocks[in.Block()] = true
+					recvField = fa.Field
+				}
+			}
+		}
+	})
+	key := fname(fn) + "/join"
+	if closeCall == nil {
+		r.undecided(rule, key, c.Pos(fn.Pos()), desc, "no close of a channel field found in Close")
+		return
+	}
+	if len(recvBlocks) == 0 {
+		r.bad(rule, key, c.at(closeCall), desc, "Close never receives from a channel of the Solutions: it returns while the goroutine it woke is still on its way out, and the error that goroutine records races with (and arrives after) a following Err()")
+		return
+	}
+	// every return reachable from the close without passing a receive is under "that channel is nil"
+	var bad ssa.Instruction
+	seen := map[*ssa.BasicBlock]bool{}
+	var walk, next func(b *ssa.BasicBlock)
+	walk = func(b *ssa.BasicBlock) {
+		if seen[b] || recvBlocks[b] {
+			return
+		}
+		seen[b] = true
+		if ret, ok := b.Instrs[len(b.Instrs)-1].(*ssa.Return); ok {
+			isNilKnown := false
+			for f := range c.factsAt(b) {
+				if x, op, ok := nilCmp(f.cond); ok && (op == token.EQL) == f.pol {
+					if fa := loadOfField(x); fa != nil && fa.Field == recvField {
+						isNilKnown = true
+					}
+				}
+			}
+			if !isNilKnown {
+				bad = ret
+			}
+			return
+		}
+		next(b)
+	}
+	// successors of b, except the edge on which the answer channel is known to be nil
+	next = func(b *ssa.BasicBlock) {
+		skip := -1
+		if cond := ifCond(b); cond != nil && len(b.Succs) == 2 {
+			if x, op, ok := nilCmp(cond); ok {
+				if fa := loadOfField(x); fa != nil && fa.Field == recvField {
+					if op == token.EQL {
+						skip = 0
+					} else {
+						skip = 1
+					}
+				}
+			}
+		}
+		for i, s := range b.Succs {
+			if i != skip {
+				walk(s)
+			}
+		}
+	}
+	if !recvBlocks[closeCall.Block()] {
+		next(closeCall.Block())
+		if _, isRet := closeCall.Block().Instrs[len(closeCall.Block().Instrs)-1].(*ssa.Return); isRet {
+			bad = closeCall
+		}
+	}
+	if bad == nil {
+		r.ok(rule, key, c.at(closeCall), desc, "every path from the close of the request channel to a return receives from the answer channel (or knows it to be nil)", true)
+	} else {
+		r.bad(rule, key, c.at(bad), desc, "a return is reachable from the close of the request channel without a receive from the answer channel: the goroutine's last write (its error) is not ordered before a following Err()")
+	}
+	r.analysed(rule, fname(fn))
+}
+
+// ---------------------------------------------------------------------------
+// R-PLACEHOLDER-ALL-EXITS (C15; added with fix F60): "a count mismatch between placeholders and arguments is an
+// error" - wherever the placeholder stands. An atom token read from the text (a result of Parser.atom) becomes a
+// term in more than one place of the grammar: as a primary (term0Atom) and, when the atom is declared as an
+// operator, directly as an argument (arg). No method of the parser returns such an atom as its Term result
+// except the function that performs the substitution (or through it): with `?` declared as an operator, f(?)
+// kept the atom and the argument meant for it was reported as one too many - or, with no argument, went unnoticed.
+func rulePlaceholderAllExits(c *Ctx, r *Report) {
+	const rule = "R-PLACEHOLDER-ALL-EXITS"
+	desc := "an atom read from the text becomes a term only through the placeholder substitution"
+	atomFn := c.method("Parser", "atom")
+	if atomFn == nil {
+		r.undecided(rule, "anchor:Parser.atom", "-", desc, "not found")
+		return
+	}
+	// the substitution function: compares a term with the placeholder field
+	isSubst := func(fn *ssa.Function) bool {
+		found := false
+		eachInstr(fn, func(in ssa.Instruction) {
+			if ia, ok := in.(*ssa.IndexAddr); ok {
+				if _, ok := loadsField(ia.X, "Parser", "args"); ok {
+					if _, isConst := ia.Index.(*ssa.Const); isConst {
+						found = true
+					}
+				}
+			}
+		})
+		return found
+	}
+	n := 0
+	for _, fn := range c.LibFuncs() {
+		if recvNamed(fn) != "Parser" || fn.Parent() != nil || fn == atomFn {
+			continue
+		}
+		res := fn.Signature.Results()
+		if res.Len() == 0 || !isEngNamed(res.At(0).Type(), "Term") {
+			continue
+		}
+		// does fn read an atom token at all?
+		reads := false
+		eachInstr(fn, func(in ssa.Instruction) {
+			if call, ok := in.(*ssa.Call); ok && call.Call.StaticCallee() == atomFn {
+				reads = true
+			}
+		})
+		if !reads {
+			continue
+		}
+		n++
+		key := fname(fn) + "/atom-exit"
+		if isSubst(fn) {
+			r.ok(rule, key, c.Pos(fn.Pos()), desc, "this is the function that substitutes", true)
+			continue
+		}
+		var bad ssa.Instruction
+		eachInstr(fn, func(in ssa.Instruction) {
+			ret, ok := in.(*ssa.Return)
+			if !ok || len(ret.Results) == 0 {
+				return
+			}
+			for _, l := range c.originSet(ret.Results[0]) {
+				// originSet looks through MakeInterface: a leaf that is the Atom result of Parser.atom
+				if e, ok := l.(*ssa.Extract); ok && e.Index == 0 {
+					if call, ok := e.Tuple.(*ssa.Call); ok && call.Call.StaticCallee() == atomFn {
+						bad = in
+					}
+				}
+			}
+		})
+		if bad == nil {
+			r.ok(rule, key, c.Pos(fn.Pos()), desc, "no return hands out the result of Parser.atom itself", true)
+		} else {
+			r.bad(rule, key, c.at(bad), desc, "this return hands out the atom token as a term without the substitution: a placeholder in that position keeps the atom and its argument is counted as one too many (or, with none given, the mismatch goes unnoticed)")
+		}
+	}
+	if n == 0 {
+		r.undecided(rule, "scan/atom-readers", "-", desc, "no parser method that reads an atom and returns a term")
+	}
+	r.analysed(rule, fmt.Sprintf("%d parser methods read an atom token and return a term", n))
 }
